@@ -516,7 +516,16 @@ func (c *Component) handlePBAActivate(poolName string, insideIP net.IP, vrfName 
 		return
 	}
 
-	mapping, isNew, err := c.pools.GetOrAllocate(poolName, insideIP, 0, swIfIndex)
+	// The subscriber is (inside VRF, inside address): the same inside address
+	// in two VRFs must not share one allocation.
+	insideVRF, err := c.insideVRFID(vrfName)
+	if err != nil {
+		c.logger.Error("CGNAT activation: inside VRF not resolvable", "vrf", vrfName, "ip", insideIP, "error", err)
+		done()
+		return
+	}
+
+	mapping, isNew, err := c.pools.GetOrAllocate(poolName, insideIP, insideVRF, swIfIndex)
 	if err != nil {
 		c.logger.Error("CGNAT block allocation failed", "pool", poolName, "ip", insideIP, "error", err)
 		done()
@@ -533,11 +542,11 @@ func (c *Component) handlePBAActivate(poolName string, insideIP net.IP, vrfName 
 	}
 
 	c.dataplane.CGNATAddDelSubscriberMappingAsync(poolID, swIfIndex, insideIP,
-		0, mapping.OutsideIP, mapping.PortBlockStart, mapping.PortBlockEnd,
+		insideVRF, mapping.OutsideIP, mapping.PortBlockStart, mapping.PortBlockEnd,
 		true, true, func(err error) {
 			if err != nil {
 				c.logger.Error("subscriber mapping failed, rolling back", "error", err)
-				c.pools.ReleaseBlocks(poolName, insideIP, 0)
+				c.pools.ReleaseBlocks(poolName, insideIP, insideVRF)
 				done()
 				return
 			}
@@ -551,6 +560,20 @@ func (c *Component) handlePBAActivate(poolName string, insideIP net.IP, vrfName 
 				"outside", fmt.Sprintf("%s:%d-%d", mapping.OutsideIP, mapping.PortBlockStart, mapping.PortBlockEnd),
 				"pool", poolName)
 		})
+}
+
+// insideVRFID maps a session's VRF name to the table id used as the inside VRF
+// of its CGNAT subscriber key (0 = default VRF), the same resolution the
+// reconciler applies to VRF-qualified inside prefixes.
+func (c *Component) insideVRFID(vrfName string) (uint32, error) {
+	if vrfName == "" || c.vrfMgr == nil {
+		return 0, nil
+	}
+	tableID, _, _, err := c.vrfMgr.ResolveVRF(vrfName)
+	if err != nil {
+		return 0, err
+	}
+	return tableID, nil
 }
 
 // commitMapping serializes the post-success state updates that the old async
@@ -607,17 +630,17 @@ func (c *Component) tryRestoreSyncedMapping(sessionID string, swIfIndex uint32, 
 	poolID := c.poolIDMap[poolName]
 
 	c.dataplane.CGNATAddDelSubscriberMappingAsync(poolID, swIfIndex, mapping.InsideIP,
-		0, mapping.OutsideIP, mapping.PortBlockStart, mapping.PortBlockEnd,
+		mapping.InsideVRFID, mapping.OutsideIP, mapping.PortBlockStart, mapping.PortBlockEnd,
 		true, true, func(err error) {
 			if err != nil {
 				c.logger.Error("restore synced mapping failed", "session", sessionID, "error", err)
 				// ReleaseBlocks frees every block of the subscriber, including
 				// ones indexed earlier (degraded restore of the same record):
 				// drop their reverse entries too, as handleSessionRelease does.
-				for _, m := range c.pools.GetMappings(poolName, mapping.InsideIP, 0) {
+				for _, m := range c.pools.GetMappings(poolName, mapping.InsideIP, mapping.InsideVRFID) {
 					c.reverse.Remove(m.OutsideIP, m.PortBlockStart)
 				}
-				c.pools.ReleaseBlocks(poolName, mapping.InsideIP, 0)
+				c.pools.ReleaseBlocks(poolName, mapping.InsideIP, mapping.InsideVRFID)
 				done()
 				return
 			}
@@ -667,6 +690,7 @@ func (c *Component) handleSessionRelease(data *events.SessionLifecycleEvent) {
 		"protocol", data.Protocol)
 
 	var insideIP net.IP
+	var vrfName string
 	var swIfIndex uint32
 	var serviceGroup string
 	var srgName string
@@ -678,6 +702,7 @@ func (c *Component) handleSessionRelease(data *events.SessionLifecycleEvent) {
 			return
 		}
 		insideIP = sess.IPv4Address
+		vrfName = sess.VRF
 		swIfIndex = sess.IfIndex
 		serviceGroup = sess.ServiceGroup
 		srgName = sess.SRGName
@@ -687,6 +712,7 @@ func (c *Component) handleSessionRelease(data *events.SessionLifecycleEvent) {
 			return
 		}
 		insideIP = sess.IPv4Address
+		vrfName = sess.VRF
 		swIfIndex = sess.IfIndex
 		serviceGroup = sess.ServiceGroup
 		srgName = sess.SRGName
@@ -724,7 +750,12 @@ func (c *Component) handleSessionRelease(data *events.SessionLifecycleEvent) {
 	}
 	c.actMu.Unlock()
 
-	mappings := c.pools.GetMappings(poolName, insideIP, 0)
+	insideVRF, err := c.insideVRFID(vrfName)
+	if err != nil {
+		c.logger.Error("CGNAT release: inside VRF not resolvable, using the default VRF", "vrf", vrfName, "error", err)
+	}
+
+	mappings := c.pools.GetMappings(poolName, insideIP, insideVRF)
 	c.logger.Debug("CGNAT release: found mappings",
 		"session", data.SessionID,
 		"pool", poolName,
@@ -742,7 +773,7 @@ func (c *Component) handleSessionRelease(data *events.SessionLifecycleEvent) {
 	for i := range mappings {
 		mapping := &mappings[i]
 		c.dataplane.CGNATAddDelSubscriberMappingAsync(poolID, swIfIndex, insideIP,
-			0, mapping.OutsideIP, mapping.PortBlockStart, mapping.PortBlockEnd,
+			insideVRF, mapping.OutsideIP, mapping.PortBlockStart, mapping.PortBlockEnd,
 			false, false, func(err error) {
 				if err != nil {
 					c.logger.Error("remove mapping failed", "error", err)
@@ -753,7 +784,7 @@ func (c *Component) handleSessionRelease(data *events.SessionLifecycleEvent) {
 		c.reverse.Remove(mapping.OutsideIP, mapping.PortBlockStart)
 	}
 
-	c.pools.ReleaseBlocks(poolName, insideIP, 0)
+	c.pools.ReleaseBlocks(poolName, insideIP, insideVRF)
 	c.actMu.Lock()
 	delete(c.sessionPoolMap, data.SessionID)
 	c.actMu.Unlock()
